@@ -47,11 +47,13 @@ def run(tier="quick", seed=0, replay=None):
         return 1
     core.lean_stage(chk, "C17")
     from harness import cover
+    from harness import fingerprint
+    fingerprint.direct(chk, ['ixai/explainer/pfi.py', 'ixai/explainer/sage/incremental.py'])
     _cv = cover.Cover(['ixai/explainer/pfi.py', 'ixai/explainer/sage/incremental.py'])
     _cv.__enter__()
     quick = tier == "quick"
     reqs, impls = [], []
-    nconf = 8 if quick else 60
+    nconf = chk.count(8, 60)
     for ci in range(nconf):
         kind = ["sage", "pfi"][ci % 2]
         cfg = dict(kind=kind, d=chk.rng.randint(1, 3), dynamic=chk.rng.random() < 0.5, alpha=chk.rng.choice([Q(1, 2), Q(1, 3)]),
@@ -64,7 +66,7 @@ def run(tier="quick", seed=0, replay=None):
         total = base.calls
         first_explained = base.steps[1]["calls0"]
         fault_sets = [{c} for c in range(first_explained, total)]
-        for _ in range(3 if quick else 10):
+        for _ in range(chk.count(3, 10)):
             a = chk.rng.randrange(first_explained, total)
             b = chk.rng.randrange(first_explained, total)
             fault_sets.append({a, b})
